@@ -278,7 +278,8 @@ def rule_R06_3(ctx):
         if g.from_expansion:
             continue
         for bb, i, pl, kd, aops, sp in g.aggregates(VALUE, "Int"):
-            okp = g.module.startswith("eval::value") or g.root_fn().path == f.path
+            import anchors
+            okp = g.module.startswith(anchors.value_module(prog)) or g.root_fn().path == f.path
             r.inst("%s builds Value::Int" % g.path)
             if okp:
                 r.ok()
@@ -291,8 +292,10 @@ def rule_R06_3(ctx):
     by_mod = {}
     for c in sites:
         by_mod.setdefault(c.fn.module, []).append(c)
-    r.require_floor("operator-function call sites in the binder module",
-                    len(by_mod.get("eval::bind", [])), 2)
+    import anchors as _an
+    bm = _an.binder_module(prog)
+    n_bind = sum(len(v) for k, v in by_mod.items() if k.startswith(bm))
+    r.require_floor("operator-function call sites in the binder module", n_bind, 1)
     r.require_floor("operator-function call sites in the evaluator module",
                     len(by_mod.get("eval", [])), 1)
     for c in sites:
@@ -309,7 +312,9 @@ def rule_R06_3(ctx):
                     users.append(d)
         names = sorted(set(u.res for u in users))
         r.inst("%s: operator result consumed by %s" % (g.path, names))
-        if users and all((u.res or "").startswith("eval::value::") for u in users):
+        import anchors
+        vm = anchors.value_module(prog) + "::"
+        if users and all((u.res or "").startswith(vm) for u in users):
             r.ok()
         else:
             r.fail("%s | operator result consumers=%s" % (g.path, ",".join(names)),
